@@ -65,7 +65,7 @@ class P(ServeProp):
             all_links = {e[1][len("outer/root/"):]: (e[2].decode("utf-8", "replace") if isinstance(e[2], bytes) else e[2]) for e in pc["ents"] if e[0] == "L" and e[1].startswith("outer/root/")}
             def leaves(lp, depth=0):
                 tg = all_links[lp]
-                if tg.startswith("/") or tg.startswith(gs.BASE) or depth > 5:       # an absolute target (the scratch directory's placeholder is one)
+                if tg.startswith("/") or depth > 5:
                     return True
                 cur = lp.split("/")[:-1]
                 for seg in tg.split("/"):
